@@ -23,6 +23,7 @@ fn c19(case: &Sexp) -> Sexp {
         31 => sc_await::run_opts(case, false, true),
         32 => sc_audit::run_memo_chain(case),
         33 => sc_reorder::run(case),
+        34 => sc_audit::run_notifying_window(case),
         11 => sc_memolock::run(case),
         13 => sc_memolock::run_immediate(case),
         15 => sc_guard::run_one_thread(case),
